@@ -531,17 +531,16 @@ fn do_to_dot<W: Write>(
             else {
                 unreachable!();
             };
-            if let Some(description) = description {
-                writeln!(
-                    output,
-                    r#"{indentation}{node_dot_id}[label="{pos}: \"{literal}\"\n\"{description}\""];"#
-                )?;
+            let label = if let Some(description) = description {
+                format!("{pos}: \"{literal}\"\n\"{description}\"")
             } else {
-                writeln!(
-                    output,
-                    r#"{indentation}{node_dot_id}[label="{pos}: \"{literal}\""];"#
-                )?;
-            }
+                format!("{pos}: \"{literal}\"")
+            };
+            writeln!(
+                output,
+                r#"{indentation}{node_dot_id}[label={}];"#,
+                make_dot_string_constant(&label)
+            )?;
             if let Some(parent_dot_id) = parent_dot_id {
                 writeln!(output, r#"{indentation}{parent_dot_id} -> {node_dot_id};"#,)?;
             }
@@ -553,7 +552,8 @@ fn do_to_dot<W: Write>(
             };
             writeln!(
                 output,
-                r#"{indentation}{node_dot_id}[label="{pos}: <{nonterm}>"];"#
+                r#"{indentation}{node_dot_id}[label={}];"#,
+                make_dot_string_constant(&format!("{pos}: <{nonterm}>"))
             )?;
             if let Some(parent_dot_id) = parent_dot_id {
                 writeln!(output, r#"{indentation}{parent_dot_id} -> {node_dot_id};"#,)?;
